@@ -229,6 +229,16 @@ static void run_meta(void *va, FILE *out) {
         fprintf(out, " %u %u %u", md.chksum_mismatch, md.backend_id, md.backend_version);
     }
     if (memcmp(copy, a->frag, a->len)) fprintf(out, " INPUT-MODIFIED");
+    /* the caller's result struct may sit at any address (arrays of the packed struct have a 59-byte stride): the answer
+       is the same at all eight alignments */
+    {
+        unsigned char raw[sizeof(fragment_metadata_t) + 16] __attribute__((aligned(16)));
+        for (int off = 1; off < 8; off++) {
+            fragment_metadata_t *m2 = (fragment_metadata_t *)(raw + off); memset(raw, 0xEE, sizeof raw);
+            READER_ENV_ON(); int rc2 = liberasurecode_get_fragment_metadata((char *)copy, m2); READER_ENV_OFF();
+            if (rc2 != rc || (rc == 0 && memcmp(m2, &md, sizeof md))) { fprintf(out, " RESULT-DEPENDS-ON-OUTPUT-ALIGNMENT(%d)", off); break; }
+        }
+    }
     if (!a->ro) free(copy);
     if (a->ro && g_progress) g_progress[0] = 0;
 }
@@ -304,6 +314,9 @@ void op_size(cfg_t c, uint64_t len) {
 typedef struct { int be, k, m, hd, w; } create_a;
 static void run_create_once(void *va, FILE *out);
 static void run_create(void *va, FILE *out) {
+    /* (in the forked child) no instance of the harness's own is alive: reference counts shared between instances start at
+       zero, so a create / destroy pair that does not balance shows at once */
+    cfg_release_all();
     if (mt_available()) {
         /* blocks are counted on the second of two identical runs (one-time allocations of libc / the loader happen on the first) */
         char *b = NULL; size_t n = 0; FILE *tmp = open_memstream(&b, &n);
@@ -316,6 +329,13 @@ static void run_create_once(void *va, FILE *out) {
     struct ec_args args; memset(&args, 0, sizeof args);
     args.k = a->k; args.m = a->m; args.hd = a->hd; args.w = a->w; args.ct = CHKSUM_NONE;
     /* plain build: nothing may stay allocated after a refused create, nor after a full create..destroy cycle */
+    /* a companion instance of the built-in RS code lives through the candidate's whole life and must still work afterwards
+       (instances share arithmetic tables and the registry) */
+    struct ec_args cargs; memset(&cargs, 0, sizeof cargs); cargs.k = 4; cargs.m = 2; cargs.hd = 2; cargs.ct = CHKSUM_NONE;
+    int comp = liberasurecode_instance_create(EC_BACKEND_LIBERASURECODE_RS_VAND, &cargs);
+    if (mt_available()) {   /* the loader's one-time / per-error allocations for this very request happen before the count starts */
+        int w0 = liberasurecode_instance_create((ec_backend_id_t)a->be, &args); if (w0 > 0) liberasurecode_instance_destroy(w0);
+    }
     long b0 = 0; if (mt_available()) { mt_on(); b0 = mt_blocks(); }
     int d = liberasurecode_instance_create((ec_backend_id_t)a->be, &args);
     long lk = (d <= 0 && mt_available()) ? mt_blocks() - b0 : 0;
@@ -343,6 +363,21 @@ static void run_create_once(void *va, FILE *out) {
         if (lk) fprintf(out, "LEAK%ld ", lk);
         fprintf(out, "ok");
     } else fprintf(out, "err %d", d);
+    if (comp > 0) {
+        if (g_progress) snprintf(g_progress, 200, "using a companion rs_vand (4,2) instance after the life cycle of be=%d (%d,%d,%d) w=%d", a->be, a->k, a->m, a->hd, a->w);
+        unsigned char data[41]; for (int i = 0; i < 41; i++) data[i] = (unsigned char)(i * 9 + 2);
+        char **ed = NULL, **ep = NULL; uint64_t flen = 0; int bad = 0;
+        if (liberasurecode_encode(comp, (char *)data, 41, &ed, &ep, &flen) != 0) bad = 1;
+        else {
+            char *fr[4] = { ed[1], ed[3], ep[0], ep[1] }; char *od = NULL; uint64_t ol = 0;
+            if (liberasurecode_decode(comp, fr, 4, flen, 0, &od, &ol) != 0) bad = 1;
+            else { if (ol != 41 || memcmp(od, data, 41)) bad = 1; liberasurecode_decode_cleanup(comp, od); }
+            liberasurecode_encode_cleanup(comp, ed, ep);
+        }
+        if (liberasurecode_instance_destroy(comp) != 0) bad = 1;
+        if (bad) fprintf(out, " cycle-companion-broken");
+        if (g_progress) g_progress[0] = 0;
+    }
 }
 void op_create(int be, int k, int m, int hd, int w) {
     create_a a = { be, k, m, hd, w };
